@@ -47,7 +47,8 @@ NT_SHAPE = re.compile(r'^<[A-Z][A-Za-z]*>$')
 def _cfg(base, **repl):
     txt = open(os.path.join(vlib.SPEC, base)).read()
     for k, v in repl.items():
-        txt, n = re.subn(r'\b%s = (\{[^}]*\}|\S+)' % k, "%s = %s" % (k, v), txt)
+        new = "%s %s" % (k, v) if str(v).startswith("<-") else "%s = %s" % (k, v)
+        txt, n = re.subn(r'\b%s (= (\{[^}]*\}|\S+)|<- \w+)' % k, lambda m: new, txt)
         if n != 1:
             raise vlib.ToolError("cannot set %s in %s" % (k, base))
     path = os.path.join(vlib.scratch(), "%s_%d.cfg" % (base[:-4], abs(hash(json.dumps(repl, sort_keys=True))) % 10 ** 8))
@@ -288,25 +289,34 @@ def run(chk):
 
     # ------------------------------------------------------------------ generation (TLC)
     w = 4
+    all_types = '{"int", "text", "null", "float", "nan", "blob", "vec", "vec2", "bool", "huge", "uuid", "date", "ts"}'
     jobs = {
-        "bfs": dict(module="MC_Grammar.tla", cfg=_cfg("Gen_Grammar_bfs.cfg", Budget=2 if thorough else 1), timeout=3000 if thorough else 900, workers=8 if thorough else w),
-        "val": dict(module="MC_Grammar.tla", cfg=_cfg("Gen_Grammar_val.cfg", VBudget=2 if thorough else 1) if not thorough else
-                    _cfg("Gen_Grammar_val.cfg", VBudget=2, Starts='{"<Stmt>"}'), timeout=3000 if thorough else 900, workers=8 if thorough else w),
-        "mut": dict(module="MC_Grammar.tla", cfg=_cfg("Gen_Grammar_mut.cfg", Budget=1 if thorough else 0), timeout=3000 if thorough else 900, workers=w),
-        "sim": dict(module="MC_Grammar.tla", cfg=os.path.join(vlib.SPEC, "Gen_Grammar_sim.cfg"), timeout=3000 if thorough else 900, workers=1,
-                    simulate="num=%d" % (6000 if thorough else 500), seed=chk.seed, extra=["-depth", "200"]),
-        "api": dict(module="MC_ApiCalls.tla", cfg=_cfg("Gen_ApiCalls.cfg", MaxCalls=4 if thorough else 3,
-                                                        ParamTypes='{"int", "text", "null", "float", "nan", "blob", "vec", "vec2", "bool", "huge", "uuid", "date", "ts"}' if thorough else '{"int", "text", "null", "vec", "huge"}'),
+        # every sentence with <= 1 feature, all 26 frames, all nesting shapes
+        "bfs": dict(module="MC_Grammar.tla", cfg=_cfg("Gen_Grammar_bfs.cfg", DeepN="{64, 1000, 5000, 20000}" if thorough else "{64, 1000, 5000}"), timeout=1500, workers=w),
+        # <= 1 feature + <= 1 boundary value: expression / PRAGMA / SET frames (quick), every frame (thorough)
+        "val": dict(module="MC_Grammar.tla", cfg=_cfg("Gen_Grammar_val.cfg", Starts='{"<Stmt>"}') if thorough else os.path.join(vlib.SPEC, "Gen_Grammar_val.cfg"),
+                    timeout=3000 if thorough else 900, workers=8 if thorough else w),
+        # single mutations of the default sentences (thorough: with the whole junk alphabet)
+        "mut": dict(module="MC_Grammar.tla", cfg=_cfg("Gen_Grammar_mut.cfg", JunkTokens="<- Junk") if thorough else os.path.join(vlib.SPEC, "Gen_Grammar_mut.cfg"),
                     timeout=3000 if thorough else 900, workers=w),
+        "sim": dict(module="MC_Grammar.tla", cfg=os.path.join(vlib.SPEC, "Gen_Grammar_sim.cfg"), timeout=3000 if thorough else 900, workers=1,
+                    simulate="num=%d" % (5000 if thorough else 500), seed=chk.seed, extra=["-depth", "200"]),
+        "api": dict(module="MC_ApiCalls.tla", cfg=_cfg("Gen_ApiCalls.cfg", ParamTypes=all_types if thorough else '{"int", "text", "null", "vec", "huge"}'),
+                    timeout=3000 if thorough else 900, workers=8 if thorough else w),
         "apisim": dict(module="MC_ApiCalls.tla", cfg=_cfg("Gen_ApiCalls_sim.cfg", MaxCalls=10), timeout=900, workers=1,
                        simulate="num=%d" % (4000 if thorough else 400), seed=chk.seed, extra=["-depth", "14"]),
     }
+    if thorough:
+        # every sentence with <= 2 features of the two expression frames (all pairs of operators / functions / literals)
+        jobs["bfs2"] = dict(module="MC_Grammar.tla", cfg=_cfg("Gen_Grammar_val.cfg", Budget=2, VBudget=0, Starts='{"<QWhere>", "<QExpr>"}'), timeout=3000, workers=8)
     gen = _tlc_jobs(jobs); chk.mark("tlc")
 
     # ------------------------------------------------------------------ cases
     cases, seen = [], set()
     gen_counts = {}
-    for src in ("bfs", "val", "mut", "sim"):
+    for src in ("bfs", "bfs2", "val", "mut", "sim"):
+        if src not in gen:
+            continue
         vals = gen[src]["emitted"]
         gen_counts[src] = len(vals)
         for v in vals:
@@ -338,9 +348,10 @@ def run(chk):
     by = collections.defaultdict(list)
     for c in cases:
         by[c["src"]].append(c)
-    lim = dict(bfs=60000, val=60000, mut=40000, sim=10 ** 6) if thorough else dict(bfs=9000, val=6000, mut=3500, sim=10 ** 6)
+    lim = dict(bfs=60000, bfs2=40000, val=40000, mut=30000, sim=10 ** 6) if thorough else dict(bfs=9000, bfs2=0, val=6000, mut=3500, sim=10 ** 6)
     chosen = []
     chosen += take(by["bfs"], lim["bfs"], lambda c: (c["frame"], c["trail"][-1][0] if c["trail"] else "-"))
+    chosen += take(by["bfs2"], lim["bfs2"], lambda c: (c["frame"], c["trail"][-1][0] if c["trail"] else "-"))
     chosen += take(by["val"], lim["val"], lambda c: (c["frame"], c["trail"][-1][0] if c["trail"] else "-"))
     chosen += take(by["mut"], lim["mut"], lambda c: (c["frame"], tuple(c["mutkinds"])))
     chosen += by["sim"]
@@ -403,7 +414,7 @@ def run(chk):
         raise vlib.ToolError("vacuous generator: only %.0f%% of the unmutated sentences execute successfully (need >= 30%%)" % (100 * ratio))
     need_sits = {"use_after_close", "nested_begin", "rollback_without_txn", "commit_without_txn", "rollback_to_unknown_savepoint", "release_unknown_savepoint",
                  "duplicate_savepoint", "too_few_params", "too_many_params", "param_type_mismatch", "prepared_reuse", "ddl_in_txn", "close_in_txn",
-                 "no_such_handle", "batch_api", "pragma", "dml_on_dropped_table", "read_of_marker_like_value"}
+                 "no_such_handle", "batch_api", "pragma", "dml_on_dropped_table", "read_of_marker_like_value", "rows_older_than_schema"}
     miss = sorted(need_sits - set(sits_seen))
     if miss:
         raise vlib.ToolError("API generator never reached the situations %s" % miss)
